@@ -136,7 +136,7 @@ impl Property for C05 {
     }
     fn cases(&self, tier: Tier) -> usize {
         match tier {
-            Tier::Quick => 6_000,
+            Tier::Quick => 100_000,
             Tier::Thorough => 500_000,
         }
     }
